@@ -788,6 +788,36 @@ func (c *Ctx) c19TailAfterLiteral() {
 	}
 }
 
+// c19ResultsKept: the results Call and Func hand to the host are the host's: later calls on the same VM (also
+// nested ones made by natives) do not change them
+func (c *Ctx) c19ResultsKept() {
+	vm := goat.New()
+	var nested []goat.Value
+	vm.Set("main.viaFunc", goat.NewFunc(1, 1, func(vm *goat.VM, args []goat.Value) goat.Value {
+		r, err := vm.Func(args[0], 2, goat.String("a"), goat.String("b"))
+		if err != nil {
+			panic(err)
+		}
+		nested = r
+		return goat.Int(len(r))
+	}))
+	if _, err := vm.Eval(fstest.MapFS{}, "main", "func pair(a int, b int) (int, int) { return a, b }\nfunc swap(a string, b string) (string, string) { return b, a }\nfunc sum(xs ...int) int {\n\tn := 0\n\tfor _, x := range xs {\n\t\tn += x\n\t}\n\treturn n\n}\nfunc run() int { return viaFunc(swap) }\n"); err != nil {
+		c.Rep.Violate(Violation{Kind: "oracle", Cut: "results-kept", Input: "declarations", Impl: err.Error(), Oracle: "evaluates"})
+		return
+	}
+	r1, e1 := vm.Call("main.pair", 2, goat.Int(1), goat.Int(2))
+	r2, e2 := vm.Call("main.pair", 2, goat.Int(30), goat.Int(40))
+	r3, e3 := vm.Func(vm.Get("main.swap"), 2, goat.String("x"), goat.String("y"))
+	_, e4 := vm.Call("main.run", 1)
+	r5, e5 := vm.Call("main.sum", 1, goat.Int(1), goat.Int(2), goat.Int(3), goat.Int(4))
+	r6, e6 := vm.Call("main.pair", 1, goat.Int(7), goat.Int(8))
+	c.Rep.Oracle["results-kept"]++
+	got := fmt.Sprint(c19Show(r1, e1), " | ", c19Show(r2, e2), " | ", c19Show(r3, e3), " | ", c19Show(nested, e4), " | ", c19Show(r5, e5), " | ", c19Show(r6, e6))
+	if want := "ok 1 2 | ok 30 40 | ok y x | ok b a | ok 10 | ok 7"; got != want {
+		c.Rep.Violate(Violation{Kind: "oracle", Cut: "results-kept", Input: "pair(1,2); pair(30,40); Func swap(x,y); run() whose native calls Func swap(a,b); sum(1,2,3,4); pair(7,8) asking one result - every result read after all the calls", Impl: got, Oracle: want})
+	}
+}
+
 // c19ValueFormWithArgs: a native of the form func(vm) Value cannot read arguments, but registered with an arity it
 // still delivers its result (not the first argument; fix b462b86), and a wrong argument count is an error
 func (c *Ctx) c19ValueFormWithArgs() {
@@ -969,6 +999,7 @@ func runC19(c *Ctx) error {
 	c.c19Objects()
 	c.c19ValueFormWithArgs()
 	c.c19TailAfterLiteral()
+	c.c19ResultsKept()
 	c.c19RoundTrips(nr)
 	return nil
 }
